@@ -23,7 +23,9 @@ def topo_writes(E, arg_indices=(0,), ignore_paths=(), include_free=True):
 
 def check(chk, P, E, fname, unit, pred, rule="R-ATOMIC", env=None, fail=None, construct="no-write-before-failure", maxstates=40000, only_errno=None):
     f = P.need_func(fname, unit)
-    pe = peval.PathEval(P, f, env or {}, is_effect=pred, dirty_paths=True, fail_value=fail, maxstates=maxstates)
+    # inside an evaluated helper the parameters are the helper's own: there every write through a parameter or to a global counts
+    inner = topo_writes(E, arg_indices=tuple(range(16)))
+    pe = peval.PathEval(P, f, env or {}, is_effect=pred, dirty_paths=True, fail_value=fail, maxstates=maxstates, callee_effect=inner)
     out = pe.run()
     fails = [t for t in out.terminals if t[0] == "return" and t[4]]
     if only_errno is not None:
